@@ -216,7 +216,7 @@ def transcripts(tier):
     """Build + run castgrid for the tier's feature sets; run the oracle over each transcript.
     Cached by the content hash of /repo and of the machinery.  Returns a dict."""
     key = repo_hash()[:16] + "-" + machinery_hash(["harness/castgrid", "harness/mustgrid", "oracle", "coq/theories", "translator/src",
-                                                   "tools/fam_cast.py"])[:16]
+                                                   "tools/fam_cast.py", "tools/common.py"])[:16]
     cdir = os.path.join(CACHE, "transcripts", "cast-%s-%s" % (tier, key))
     done = os.path.join(cdir, "result.json")
     if os.path.exists(done):
@@ -278,8 +278,10 @@ def transcripts(tier):
     ds = sorted((os.path.join(troot, x) for x in os.listdir(troot)), key=os.path.getmtime)
     for old in ds[:-6]:
         shutil.rmtree(old, ignore_errors=True)
-    with open(done, "w") as f:
-        json.dump(res, f, indent=1)
+    # a run in which the oracle or a harness could not be built is never cached
+    if not oerr and not res.get("must_error") and not res.get("charscan_error") and not any("build_error" in e for e in res["cfgs"].values()):
+        with open(done, "w") as f:
+            json.dump(res, f, indent=1)
     return res
 
 
